@@ -557,7 +557,11 @@ def run_programs(exe, programs, timeout=10, jobs=JOBS, args=(), cwd_links=None, 
                 if os.environ.get("CB_VERIF_LOG_TIMEOUTS"):
                     with open(os.environ["CB_VERIF_LOG_TIMEOUTS"], "a") as lf:
                         lf.write("=====TIMEOUT\n" + p)
-                return ((ex_.stdout or b"").decode("utf-8", "replace"), "timeout", "")
+                res = ((ex_.stdout or b"").decode("utf-8", "replace"), "timeout", "")
+                if collect:
+                    cp = os.path.join(d, collect)
+                    res = res + ((open(cp, errors="replace").read() if os.path.exists(cp) else ""),)
+                return res
         finally:
             free.put(d)
     with ThreadPoolExecutor(max_workers=jobs) as ex:
